@@ -10,7 +10,7 @@ import Y0.Lemmas.IdVocab
 import Y0.Lemmas.IdGraph
 
 namespace Y0
-open IdDsl
+open IdDsl IdAux
 
 /-- what C06 needs from `graph.topological_sort()`: it lists nodes of the graph -/
 def TopoNodes (topo : MG Name → Except Err (List Name)) : Prop :=
@@ -84,14 +84,14 @@ theorem identifyOutcomes_vocab (topo : MG Name → Except Err (List Name)) (htop
 /-- a `topo` satisfying the assumption exists (any function returning a list of the graph's nodes does) -/
 example : TopoNodes (fun H => .ok H.nodes) := fun _ _ h v hv => by cases h; exact hv
 
-def napkin : MG Name := MG.fromEdges [0, 1, 2, 3] [(0, 1), (1, 2), (2, 3)] [(0, 2), (0, 3)]
+def idNapkin : MG Name := MG.fromEdges [0, 1, 2, 3] [(0, 1), (1, 2), (2, 3)] [(0, 2), (0, 3)]
 
-example : napkin.WF := MG.wf_fromEdges _ _ _
+example : idNapkin.WF := MG.wf_fromEdges _ _ _
 
 /-- the first step of ID on the napkin query `P(Y | do(X))` is line 3 with `W, R` added to the treatments
 (a non-trivial run: the recursion goes on through lines 7, 2 and 6) -/
-example : step MG.topologicalSort { G := napkin, X := [2], Y := [3], est := .prob none [] [] } =
-    .ok (.tail (line3 { G := napkin, X := [2], Y := [3], est := .prob none [] [] } [0, 1])) := by
+example : step MG.topologicalSort { G := idNapkin, X := [2], Y := [3], est := .prob none [] [] } =
+    .ok (.tail (line3 { G := idNapkin, X := [2], Y := [3], est := .prob none [] [] } [0, 1])) := by
   unfold step; rfl
 
 end Y0
